@@ -343,8 +343,10 @@ def label_of(desc, harness):
     return "safety", "C06.rs.%s.safety" % harness.replace("h_", "", 1).split("__")[0]
 
 
-def run_kani(crate, harnesses, timeout, cmds, playback=False, target="target"):
+def run_kani(crate, harnesses, timeout, cmds, playback=False, target="target", solver=None):
     cmd = ["cargo", "kani"]
+    if solver:
+        cmd += ["--solver", solver]
     if playback:
         cmd += ["-Z", "concrete-playback", "--concrete-playback=print"]
     for h in harnesses:
@@ -374,7 +376,7 @@ def do_replay(binary, check, vals):
     return p.returncode, p.stdout.strip(), p.stderr.strip()
 
 
-CORNER = {"u16": [0x1234, 80, 1, 256, 32526, 65535, 0], "u32": [0x01020304, 0x10813FA8, 1, 0xFFFFFFFF, 0], "u8": [17, 34, 51, 68, 0, 255], "bool": [1, 0]}
+CORNER = {"u16": [0x1234, 0x0101, 80, 1, 256, 32526, 65535, 0], "u32": [0x01020304, 0x10813FA8, 1, 0xFFFFFFFF, 0], "u8": [17, 34, 51, 68, 0, 255], "bool": [1, 0]}
 
 
 def enumerate_witness(binary, check, ins, fixed, label, cap=400):
@@ -456,8 +458,12 @@ def run(tier="quick", seed=0, pid="C06"):
                 continue
             p = parse_kani(so)
             if "error: could not compile" in se or re.search(r"^error(\[|:)", se, re.M) or not p:
-                errs = "\n".join(l for l in se.split("\n") if l.startswith("error"))[:800]
-                res["undecided"].append("the harness crate does not compile / Kani did not run for %s (type/anchor/tool problem, not a verdict): %s" % (g, errs or se[-600:]))
+                both = so + "\n" + se
+                m = re.search(r"^error(?!: could not compile).*?(?=^error: could not compile|\Z)", both, re.M | re.S)
+                errs = " ".join((m.group(0) if m else "\n".join(l for l in se.split("\n") if "Blocking waiting" not in l)[-700:]).split())[:700]
+                msg = "the harness crate does not compile against the real files / Kani did not run (type/anchor/tool problem, not a verdict): %s" % errs
+                if msg not in res["undecided"]:
+                    res["undecided"].append(msg)
                 continue
             parsed.update(p)
     if not parsed:
@@ -466,6 +472,7 @@ def run(tier="quick", seed=0, pid="C06"):
     failing = {}
     per_h = {}
     clause_reached = {}
+    clause_unreached_in, failed_proofs, vac_msgs = {}, set(), []
     for name in names:
         h = "h_" + name
         r = parsed.get(h)
@@ -478,7 +485,7 @@ def run(tier="quick", seed=0, pid="C06"):
             kind, lab = label_of(desc, h)
             if kind == "vacuity":
                 if st != "SATISFIED":
-                    res["undecided"].append("vacuity guard: cover at the end of %s is %s (harness cannot reach its end)" % (h, st))
+                    vac_msgs.append((h, "vacuity guard: cover at the end of %s is %s (harness cannot reach its end)" % (h, st)))
                 continue
             if st == "UNREACHABLE":
                 # Kani proved the check's location unreachable.  For a library-internal safety check that is a fact about the
@@ -486,6 +493,7 @@ def run(tier="quick", seed=0, pid="C06"):
                 n_unreach += 1
                 if kind == "clause":
                     clause_reached.setdefault(lab, False)
+                    clause_unreached_in.setdefault(lab, []).append(h)
                 continue
             if kind == "clause":
                 clause_reached[lab] = True
@@ -495,18 +503,44 @@ def run(tier="quick", seed=0, pid="C06"):
                 n_ok += 1
             elif st == "FAILURE":
                 failing.setdefault(lab, []).append((name, cid, desc, loc))
+                failed_proofs.add(h)
             else:
                 res["undecided"].append("%s: check %s (%s) has status %s" % (h, cid, desc[:80], st))
         if r["summary"][1] != n_all + n_unreach:
             res["undecided"].append("%s: parsed %d checks but Kani's summary says %d" % (h, n_all + n_unreach, r["summary"][1]))
         if r["cover"] is None or r["cover"][0] != r["cover"][1]:
-            res["undecided"].append("vacuity guard: %s cover summary %s" % (h, r["cover"]))
+            vac_msgs.append((h, "vacuity guard: %s cover summary %s" % (h, r["cover"])))
         per_h[h] = dict(checks=n_all, clause_checks=n_clause, success=n_ok, unreachable_not_counted=n_unreach, verdict=r["verdict"], solver_s=round(r["solver_s"], 3), verification_s=r["verif_s"])
         res["obligations"] += n_all
         res["discharged"] += n_ok
 
+    # thorough: the same proofs decided by a second SAT solver (Kani's default is CaDiCaL); verdicts must agree proof by proof
+    if tier == "thorough" and parsed:
+        agree = {}
+        with concurrent.futures.ThreadPoolExecutor(min(16, len(groups))) as ex:
+            futs = [(g, ex.submit(run_kani, crate, g, timeout, cmds, False, "target_g%d" % i, "kissat")) for i, g in enumerate(groups)]
+            for g, f in futs:
+                rc, so, se, w = f.result()
+                p2 = parse_kani(so) if rc is not None else {}
+                for pn in g:
+                    a, b = parsed.get("h_" + pn), p2.get("h_" + pn)
+                    if a is None:
+                        continue
+                    if b is None or b["summary"] is None:
+                        res["undecided"].append("second solver (kissat) produced no verdict for h_%s" % pn)
+                    elif a["summary"] != b["summary"] or a["verdict"] != b["verdict"]:
+                        res["undecided"].append("solver disagreement on h_%s: cadical %s %s, kissat %s %s" % (pn, a["verdict"], a["summary"], b["verdict"], b["summary"]))
+                    else:
+                        agree["h_" + pn] = "kissat agrees: %s, %d of %d failed" % (b["verdict"], b["summary"][0], b["summary"][1])
+                    res["solver_s"] += (b or {}).get("solver_s", 0.0)
+        res["extra"]["second_solver"] = agree
+
+    # an assert! that fails cuts the path: what follows it in a failing proof is unreachable BECAUSE of the reported failure
+    for h, msg in vac_msgs:
+        if h not in failed_proofs:
+            res["undecided"].append(msg)
     for lab, reached in sorted(clause_reached.items()):
-        if not reached:
+        if not reached and not all(h in failed_proofs for h in clause_unreached_in.get(lab, [])):
             res["undecided"].append("vacuity guard: clause %s is UNREACHABLE in every proof harness (never exercised)" % lab)
     res["extra"]["clauses_exercised"] = sum(1 for v in clause_reached.values() if v)
     try:
@@ -586,13 +620,22 @@ def run(tier="quick", seed=0, pid="C06"):
                                         counterexample=cex, witness=w))
 
     body = open(os.path.join(crate, "src", "lib.rs")).read()
-    cl = re.findall(r'clause!\((.*?), "(C06\.rs\.[\w.]+): (.*?)"\);', body, re.S)
+    cl = re.findall(r'clause!\(((?:(?!clause!\().)*?),\s*"(C06\.rs\.[\w.]+): (.*?)"\);', body, re.S)
     for c, lab, txt in cl[:1] + [x for x in cl if x[1] in ("C06.rs.update_redirect_policy_key", "C06.rs.lookup_audit_decodes_destination", "C06.rs.audit_entry_field_order.is_root")]:
         res["samples"].append("%s: assert %s  -- %s" % (lab, " ".join(c.split())[:200], txt))
     res["extra"].update(per_harness=per_h, repo=repo(), labels=sorted(set(x[1] for x in cl)) + ["C06.rs.%s.safety" % h for h, _ in HARNESS],
                         kani_wall_s=round(wall, 2))
     res["wall_s"] = time.time() - t_start
+    cleanup(wd)
     return res
+
+
+def cleanup(wd):
+    """scratch copies of the repo (mutation self-tests) get a run directory each; drop their cargo target dirs (~20 MB per proof group)"""
+    if repo() != "/repo":
+        for d in os.listdir(wd):
+            if d.startswith("target"):
+                shutil.rmtree(os.path.join(wd, d), ignore_errors=True)
 
 
 def main(argv):
